@@ -43,13 +43,74 @@ def check(run):
             raise AnalysisError('anchored class vanished: Caching%dD' % nd)
         _one(run, ci, nd)
         _once_and_nodes(run, ci, nd)
+        _normalisation(run, ci, nd)
     run.floor('C14-R5', 6)
+    run.floor('C14-R6', 3)
     run.floor('C14-R1', 3)
     run.floor('C14-R2', 9, 'obligations')
     run.floor('C14-R3', 3)
     run.floor('C14-R4', 3 * 8, 'obligations')
     from ..cachekey import check_caches
     check_caches(run, [m_ for m_ in prog.modules.values() if m_.relpath in set(FILES) and not m_.name.endswith('#pxd')], 'C14-K', prog=prog)
+
+
+def _normalisation(run, ci, nd):
+    """R6: samples are stored as (f - data_min) * data_delta_inv and the coefficients are scaled back with data_delta: on every path
+    through the constructor the two constants are reciprocal (data_delta_inv * data_delta = 1), also for the degenerate bounds
+    min = max that the constructor special-cases."""
+    from ..pathinterp import PathInterp
+    from ..algebra import SymEval, C, L
+    run.describe('C14-R6', 'normalisation constants: data_delta_inv * data_delta = 1 on every path through the constructor')
+    init = ci.methods.get('__init__')
+    if init is None:
+        raise AnalysisError('anchored method vanished: Caching%dD.__init__' % nd)
+    words = ('data_delta', 'data_min', 'data_max')
+    keep = [st for st in init.body if any(isinstance(x, ast.Attribute) and x.attr.startswith(words) for x in ast.walk(st))]
+    run.subject('C14-R6')
+    if not keep:
+        run.undecided('C14-R6', 'Caching%dD.__init__' % nd, 'the normalisation constants are not set at the top level of the constructor')
+        return
+    synth = ast.FunctionDef(name='norm', args=init.args, body=keep, decorator_list=[], lineno=init.lineno)
+
+    class E(SymEval):
+        def call(self, n):
+            if dotted(n.func) == 'float':
+                return L('NAN')
+            return super().call(n)
+    try:
+        paths = PathInterp(synth, (), {}, evaluator=E, store_prefixes=('self.data_',), max_paths=32).run()
+    except Exception as e:
+        run.undecided('C14-R6', 'Caching%dD.__init__' % nd, 'not interpreted: %s' % str(e)[:60])
+        return
+    K = '%s|Caching%dD|__init__|normalisation' % (ci.mod.name, nd)
+    bad = None
+    n = 0
+    for p in paths:
+        last = {}
+        for key, val, tags, st, aug in p.stores:
+            last[key] = (val, st)
+        if 'self.data_delta' not in last or 'self.data_delta_inv' not in last:
+            continue
+        D, I = last['self.data_delta'][0], last['self.data_delta_inv'][0]
+        if 'NAN' in D.leaves() | I.leaves():
+            continue
+        n += 1
+        try:
+            ok = (D * I).eq(C(1))
+        except Exception:
+            ok = None
+        if ok is False:
+            bad = (p, D, I, last['self.data_delta_inv'][1])
+    if bad:
+        p, D, I, st = bad
+        run.fail('C14-R6', K, ci.mod.relpath, st.lineno,
+                 'Caching%dD.__init__: on the path %s data_delta = %s but data_delta_inv = %s: the samples are normalised with one constant and '
+                 'the coefficients scaled back with another that is not its reciprocal (bounds with min = max), so the cached function is '
+                 'not the sampled one' % (nd, dict(p.decisions), D.key()[:40], I.key()[:40]))
+    elif n:
+        run.ok('C14-R6', 'Caching%dD.__init__' % nd, 'reciprocal on %d paths' % n)
+    else:
+        run.undecided('C14-R6', 'Caching%dD.__init__' % nd, 'no path sets both constants')
 
 
 def _once_and_nodes(run, ci, nd):
